@@ -14,6 +14,7 @@ type Flow struct {
 	G    *cfg.CFG
 	idom    []int
 	domSets [][]bool
+	assume  []Assumption
 }
 
 // NewFlow builds the control-flow graph of body (function literals are opaque nodes).
@@ -180,6 +181,90 @@ func (f *Flow) Exits() []Exit {
 	return out
 }
 
+// Assumption is a branch condition with a known truth value on the paths explored.
+type Assumption struct {
+	Cond  string // types.ExprString of the condition
+	Value bool
+}
+
+// edgeAllowed prunes if-edges that contradict the assumptions: the true edge of `if c` when
+// c is assumed false, the false edge when c is assumed true (also through !c and the
+// conjuncts/disjuncts that decide the condition).
+func edgeAllowed(from, to *cfg.Block, assume []Assumption) bool {
+	if len(assume) == 0 || len(from.Nodes) == 0 {
+		return true
+	}
+	is, ok := to.Stmt.(*ast.IfStmt)
+	if !ok {
+		return true
+	}
+	last, ok := from.Nodes[len(from.Nodes)-1].(ast.Expr)
+	if !ok || last != is.Cond {
+		return true
+	}
+	var edge bool
+	switch to.Kind {
+	case cfg.KindIfThen:
+		edge = true
+	case cfg.KindIfElse, cfg.KindIfDone:
+		edge = false
+	default:
+		return true
+	}
+	if v, known := evalCond(is.Cond, assume); known && v != edge {
+		return false
+	}
+	return true
+}
+
+// evalCond evaluates a condition under assumptions when they decide it.
+func evalCond(c ast.Expr, assume []Assumption) (val, known bool) {
+	c = ast.Unparen(c)
+	s := types.ExprString(c)
+	for _, a := range assume {
+		if a.Cond == s {
+			return a.Value, true
+		}
+	}
+	switch x := c.(type) {
+	case *ast.UnaryExpr:
+		if x.Op == token.NOT {
+			if v, k := evalCond(x.X, assume); k {
+				return !v, true
+			}
+		}
+	case *ast.BinaryExpr:
+		switch x.Op {
+		case token.LAND:
+			lv, lk := evalCond(x.X, assume)
+			rv, rk := evalCond(x.Y, assume)
+			if (lk && !lv) || (rk && !rv) {
+				return false, true
+			}
+			if lk && rk {
+				return true, true
+			}
+		case token.LOR:
+			lv, lk := evalCond(x.X, assume)
+			rv, rk := evalCond(x.Y, assume)
+			if (lk && lv) || (rk && rv) {
+				return true, true
+			}
+			if lk && rk {
+				return false, true
+			}
+		}
+	}
+	return false, false
+}
+
+// PathAvoidingAssuming is PathAvoiding restricted to paths consistent with the assumptions.
+func (f *Flow) PathAvoidingAssuming(from ast.Node, e Exit, stop func(ast.Node) bool, assume []Assumption) bool {
+	f.assume = assume
+	defer func() { f.assume = nil }()
+	return f.PathAvoiding(from, e, stop)
+}
+
 // PathAvoiding reports whether some path from `from` (exclusive; nil = function entry) to the
 // exit e does not contain any node for which stop returns true.
 func (f *Flow) PathAvoiding(from ast.Node, e Exit, stop func(ast.Node) bool) bool {
@@ -215,7 +300,7 @@ func (f *Flow) PathAvoiding(from ast.Node, e Exit, stop func(ast.Node) bool) boo
 			return true
 		}
 		for _, nx := range s.b.Succs {
-			if seen[nx.Index] {
+			if seen[nx.Index] || !edgeAllowed(s.b, nx, f.assume) {
 				continue
 			}
 			seen[nx.Index] = true
